@@ -13,7 +13,7 @@ PROPERTY = "C15"
 LEVEL = "exploration"
 RULE = (
     "case = abstract machine (generator of C01/C02 plus bundles: two targets from one source, two sources into one target, one event from every "
-    "non-final state) rendered in 2-4 independently drawn declaration plans: per transition a.to(b, event='e1 e2') / event=[...] / event=Event(..) "
+    "non-final state) rendered in 2-4 independently drawn declaration plans: per transition a.to(b, event='e1 e2') / event=[...] / event=Event(..) / id-less Event() class attributes used in event=[..] "
     "/ b.from_(a) / to.itself() / class attribute per event combined with | in either association / explicit Event(transitions, name=); "
     "multi-target a.to(b, c); multi-source c.from_(a, b); from_.any() instead of explicit transitions from every non-final state; states as "
     "attributes / States({...}) / States.from_enum; everything declared on a base class with an empty subclass. Oracle: every rendering must "
@@ -26,7 +26,7 @@ ASSUMPTIONS = [
     "exception messages are not compared (an explicit Event('go_back') is displayed as 'Go back' by design)",
     "reference interpreter trusted",
 ]
-HOWS = ["kwstr", "kwlist", "kw_eventobj", "from", "attr", "event_obj", "attr"]
+HOWS = ["kwstr", "kwlist", "kw_eventobj", "kw_placeholder", "from", "attr", "event_obj", "attr"]
 
 
 def describe(r, spec):
@@ -113,7 +113,7 @@ def plan(draw, spec, bundles, inline_state_cbs):
             if b["how"] == "any":
                 trans.append({"k": b["k"], "how": "any"})
             else:
-                trans.append({"k": b["k"], "how": b["how"], "ev": draw(st.sampled_from(["kwstr", "kwlist", "kw_eventobj"]))})
+                trans.append({"k": b["k"], "how": b["how"], "ev": draw(st.sampled_from(["kwstr", "kwlist", "kw_eventobj", "kw_placeholder"]))})
             k += len(b["k"])
             continue
         opts = list(HOWS)
@@ -122,7 +122,7 @@ def plan(draw, spec, bundles, inline_state_cbs):
         how = draw(st.sampled_from(opts))
         d = {"k": [k], "how": how}
         if how in ("from", "itself"):
-            d["ev"] = draw(st.sampled_from(["kwstr", "kwlist", "kw_eventobj"]))
+            d["ev"] = draw(st.sampled_from(["kwstr", "kwlist", "kw_eventobj", "kw_placeholder"]))
         if how in ("attr", "event_obj"):
             d["via_from"] = draw(st.booleans())
         trans.append(d)
